@@ -24,7 +24,7 @@ from harness.common import main, MachineryError
 from checks.c06 import inputs as c06_inputs
 
 K = 3
-ARM = {'site': None, 'want': 'go', 'progress': 0, 'finished': [], 'mask': 'r'}
+ARM = {'site': None, 'want': 'go', 'progress': 0, 'finished': [], 'mask': 'r', 'alt': None, 'swapped': False}
 
 
 def fault_work_class():
@@ -48,9 +48,12 @@ def fault_work_class():
 
         async def get_events(self):
             self._boom('get_events')
+            fd = self.work[0].fileno()
+            if self.role() == 'adv' and ARM['swapped'] and ARM['alt'] is not None:
+                fd = ARM['alt'].fileno()        # the work replaced a connection of its own: another descriptor from now on
             if self.role() == 'adv' and ARM['mask'] == 'rw':
-                return {self.work[0].fileno(): selectors.EVENT_READ | selectors.EVENT_WRITE}
-            return {self.work[0].fileno(): selectors.EVENT_READ}
+                return {fd: selectors.EVENT_READ | selectors.EVENT_WRITE}
+            return {fd: selectors.EVENT_READ}
 
         async def handle_events(self, r, w):
             if self.role() == 'adv':
@@ -96,7 +99,7 @@ def generate(num, seed):
 
 
 def execute_scripted(case, klass):
-    ARM.update({'site': None, 'want': 'go', 'progress': 0, 'finished': [], 'mask': 'r'})
+    ARM.update({'site': None, 'want': 'go', 'progress': 0, 'finished': [], 'mask': 'r', 'alt': None, 'swapped': False})
     sim = simdrive.Sim(args=[], flag_opts={'work_klass': klass})
     roles = {}
     for w in case['pending']:
@@ -104,12 +107,19 @@ def execute_scripted(case, klass):
         p.write(b'x')               # keeps the work's descriptor readable in every iteration
         roles[p.proxy_side.fd] = w
 
+    alt_a, alt_b = sim.world.pair('x', 'X')         # the descriptor the adversary's work switches to on Swap
+    alt_b.send(b'x') if hasattr(alt_b, 'send') else None
+    ARM['alt'] = alt_a
+    advfd = {fd: 'main' for fd, w in roles.items() if w == 'adv'}
+    advfd[alt_a.fileno()] = 'alt'
+
     def obs():
         ex = sim.ex
         return {'alive': sim.alive, 'err': repr(sim.loop_error)[:120] if sim.loop_error else '',
                 'works': sorted(roles.get(k, '?') for k in ex.works),
                 'registered': sorted(roles.get(k, '?') for k in ex.registered_events_by_work_ids),
-                'finished': sorted(set(ARM['finished'])), 'progress': ARM['progress']}
+                'finished': sorted(set(ARM['finished'])), 'progress': ARM['progress'],
+                'regfds': sorted(advfd.get(fd, '?') for k, m in ex.registered_events_by_work_ids.items() if roles.get(k) == 'adv' for fd in m)}
     steps = []
     for act, site in case['steps']:
         if act == 'Arm':
@@ -118,6 +128,8 @@ def execute_scripted(case, klass):
             ARM['want'] = 'teardown'
         elif act == 'WantWrite':
             ARM['mask'] = 'rw'
+        elif act == 'Swap':
+            ARM['swapped'] = True
         elif act == 'Vanish':
             # the selector silently loses the adversary's descriptor (what epoll does when the number is closed / reused)
             for fd, w in roles.items():
